@@ -31,6 +31,8 @@
            env      environment group number of each block (p.envGroupNum; the letter is EnvLetter of it)
            enabled  _envGroupUpdatesEnabled
            reps     representativeBlocks (sorted by key) with avgNucTemperatures, as exact values; unrep: _unrepresentedXSIDs
+           tvalid   avgNucTemperatures belong to reps: a refused createRepresentativeBlocks keeps the old representatives
+                    but has already emptied (and partly refilled) the temperatures, until the next successful call
            grp/genv the block collections of the last grouping and the environment numbers it was made with (observation)
            err/act  outcome and label of the last action (observation)
            hist     the actions that led here, starting with the initial values (hidden by the VIEW; the emission config
@@ -56,8 +58,8 @@ CONSTANTS Scenarios,       \* names
           TempNuc,         \* xsTempIsotope as a nuclide index ("U238" = 2)
           MaxLevel
 
-VARIABLES scn, blk, env, enabled, reps, unrep, grp, genv, err, act, hist
-vars == <<scn, blk, env, enabled, reps, unrep, grp, genv, err, act, hist>>
+VARIABLES scn, blk, env, enabled, reps, tvalid, unrep, grp, genv, err, act, hist
+vars == <<scn, blk, env, enabled, reps, tvalid, unrep, grp, genv, err, act, hist>>
 
 S      == ScnOf(scn)
 N      == Len(S.xs)
@@ -100,25 +102,25 @@ MkBlock(s, i, ch) == [xs |-> s.xs[i], kind |-> s.fixed[i].kind, alt |-> s.fixed[
 Init == /\ scn \in Scenarios
         /\ blk \in {[i \in 1..Len(ScnOf(scn).xs) |-> MkBlock(ScnOf(scn), i, c[i])] : c \in SeqProduct(ScnOf(scn).choices)}
         /\ env = [i \in 1..Len(ScnOf(scn).xs) |-> 0]
-        /\ enabled = TRUE /\ reps = <<>> /\ unrep = <<>> /\ grp = <<>>
+        /\ enabled = TRUE /\ reps = <<>> /\ tvalid = TRUE /\ unrep = <<>> /\ grp = <<>>
         /\ genv = [i \in 1..Len(ScnOf(scn).xs) |-> 0]
         /\ err = "" /\ act = [n |-> "Init"]
         /\ hist = <<[n |-> "Init", dyn |-> [i \in 1..Len(ScnOf(scn).xs) |-> <<blk[i].bu, blk[i].t[1], blk[i].w>>]]>>
 
 Log   == hist' = Append(hist, act')
-Frame == UNCHANGED <<scn, env, enabled, reps, unrep, grp, genv>>
+Frame == UNCHANGED <<scn, env, enabled, reps, tvalid, unrep, grp, genv>>
 BurnTo(i, v) == blk[i].bu # v /\ blk' = [blk EXCEPT ![i].bu = v] /\ Frame /\ err' = "" /\ act' = [n |-> "Burn", i |-> i, v |-> v] /\ Log
 HeatTo(i, v) == blk[i].t[1] # v /\ blk' = [blk EXCEPT ![i].t[1] = v] /\ Frame /\ err' = "" /\ act' = [n |-> "Heat", i |-> i, v |-> v] /\ Log
 FluxTo(i, v) == blk[i].w # v /\ blk' = [blk EXCEPT ![i].w = v] /\ Frame /\ err' = "" /\ act' = [n |-> "Flux", i |-> i, v |-> v] /\ Log
-Disable == enabled' = FALSE /\ UNCHANGED <<scn, blk, env, reps, unrep, grp, genv>> /\ err' = "" /\ act' = [n |-> "Disable"] /\ Log
-Enable  == enabled' = TRUE /\ UNCHANGED <<scn, blk, env, reps, unrep, grp, genv>> /\ err' = "" /\ act' = [n |-> "Enable"] /\ Log
+Disable == enabled' = FALSE /\ UNCHANGED <<scn, blk, env, reps, tvalid, unrep, grp, genv>> /\ err' = "" /\ act' = [n |-> "Disable"] /\ Log
+Enable  == enabled' = TRUE /\ UNCHANGED <<scn, blk, env, reps, tvalid, unrep, grp, genv>> /\ err' = "" /\ act' = [n |-> "Enable"] /\ Log
 
 \* (the results are computed by state-level operators and bound once with \E: TLC does not cache LET definitions that
 \*  sit directly in an action)
 MakeGroups ==
     \E e1 \in {Refresh} :
        /\ env' = e1 /\ genv' = e1 /\ grp' = GroupSeq(e1)
-       /\ UNCHANGED <<scn, blk, enabled, reps, unrep>> /\ err' = "" /\ act' = [n |-> "Make"] /\ Log
+       /\ UNCHANGED <<scn, blk, enabled, reps, tvalid, unrep>> /\ err' = "" /\ act' = [n |-> "Make"] /\ Log
 
 CreateResult ==
     LET e1   == Refresh
@@ -140,8 +142,8 @@ CreateReps ==
        /\ UNCHANGED <<scn, blk, enabled>>
        /\ act' = [n |-> "Create"] /\ Log
        /\ IF r.refused
-          THEN env' = r.e1 /\ err' = "ValueError" /\ UNCHANGED <<reps, unrep>>
-          ELSE env' = r.e2 /\ err' = "" /\ reps' = r.new /\ unrep' = r.unrep
+          THEN env' = r.e1 /\ err' = "ValueError" /\ tvalid' = FALSE /\ UNCHANGED <<reps, unrep>>
+          ELSE env' = r.e2 /\ err' = "" /\ tvalid' = TRUE /\ reps' = r.new /\ unrep' = r.unrep
 
 Next == \/ \E m \in S.burn : BurnTo(m[1], m[2])
         \/ \E m \in S.heat : HeatTo(m[1], m[2])
@@ -201,7 +203,7 @@ RepObs(r, withTemps) == [id |-> IdText(r.id), src |-> r.src, dens |-> r.val.dens
                          ntemp |-> IF withTemps THEN r.val.ntemp ELSE <<>>, bu |-> r.val.bu]
 Obs == [envn |-> env,
         envl |-> [i \in 1..N |-> EnvLetter(env[i])],
-        reps |-> [k \in Idx(reps) |-> RepObs(reps[k], err = "")],
+        reps |-> [k \in Idx(reps) |-> RepObs(reps[k], tvalid)],
         unrep |-> IF err = "" THEN [k \in Idx(unrep) |-> IdText(unrep[k])] ELSE <<"?">>,
         grp |-> [g \in Idx(grp) |-> [id |-> IdText(grp[g].id), mem |-> grp[g].mem, rep |-> grp[g].opt.rep,
                                      filter |-> grp[g].opt.filter, byComp |-> grp[g].opt.byComp]],
